@@ -36,6 +36,13 @@ RULES = [
     ("group_ref", "GrpBaseRef<'static, Imp<{P}>>", "&'static Imp<{P}>"),
     ("group_arcbox", "GrpBaseArcBox<'static, Imp<{P}>, u8>", "CBox<'static, Imp<{P}>>"),
     ("group_arcref", "GrpBaseArcRef<'static, Imp<{P}>, u8>", "&'static Imp<{P}>"),
+    # traits whose generated containers carry more than instance and context: temporary storage written through &self, markers for type parameters
+    ("object_box_rettmp", "TrRetBaseBox<'static, Imp<{P}>>", "CBox<'static, Imp<{P}>>"),
+    ("object_ref_rettmp", "TrRetBaseRef<'static, Imp<{P}>>", "&'static Imp<{P}>"),
+    ("object_mut_rettmp", "TrRetBaseMut<'static, Imp<{P}>>", "&'static mut Imp<{P}>"),
+    ("object_box_generic", "TrGenBaseBox<'static, Imp<{P}>, {P}>", "CBox<'static, Imp<{P}>>"),
+    ("object_ref_generic", "TrGenBaseRef<'static, Imp<{P}>, {P}>", "&'static Imp<{P}>"),
+    ("object_mut_generic", "TrGenBaseMut<'static, Imp<{P}>, {P}>", "&'static mut Imp<{P}>"),
     ("group_cast_box", "GrpWithOpt<'static, CBox<'static, Imp<{P}>>, NoContext>", "CBox<'static, Imp<{P}>>"),
 ]
 
@@ -91,6 +98,18 @@ pub trait Tr {
 pub trait Opt {
     fn opt(&self) -> u64;
 }
+#[cglue_trait]
+pub trait TrRet {
+    #[wrap_with_obj_ref(Opt)]
+    type Sub: Opt + 'static;
+    fn sub(&self) -> &Self::Sub;
+}
+#[cglue_trait]
+pub trait TrGen<T> {
+    fn gen(&self, v: &T) -> u64;
+}
+impl<P: 'static> TrRet for Imp<P> { type Sub = Imp<P>; fn sub(&self) -> &Imp<P> { self } }
+impl<P> TrGen<P> for Imp<P> { fn gen(&self, _v: &P) -> u64 { 3 } }
 impl<P> Tr for Imp<P> { fn tr(&self) -> u64 { 1 } }
 impl<P> Opt for Imp<P> { fn opt(&self) -> u64 { 2 } }
 cglue_trait_group!(Grp, Tr, { Opt });
